@@ -124,6 +124,19 @@ class RefNs:
     def norm(self, n: str) -> str:
         return 'INBOX' if ascii_lower(n) == 'inbox' else n
 
+    def cname(self, n: str) -> str:
+        """the name CREATE makes: a trailing hierarchy delimiter is only a
+        declaration (RFC 3501 6.3.3)"""
+        n = self.norm(n)
+        if n.endswith('/') and n != '/':
+            n = n[:-1]
+        return self.norm(n)
+
+    @staticmethod
+    def inbox_variant_first(n: str) -> bool:
+        first = n.split('/', 1)[0]
+        return first != 'INBOX' and ascii_lower(first) == 'inbox'
+
     def fresh(self) -> str:
         self.n += 1
         return f'tok-{self.n}'
@@ -137,8 +150,16 @@ class RefNs:
     def permitted_refusal(self, op, cc) -> bool:
         k = op[0]
         md = self.layout is not None
+        if cc == 104 and k == 'create' and self.inbox_variant_first(self.cname(op[1])):
+            return True      # 'InBox/x': the inferiors of INBOX are spelled INBOX/...
+        if cc == 104 and k == 'rename' and self.inbox_variant_first(self.norm(op[2])):
+            return True
+        if cc == 104 and k == 'subscribe' and self.inbox_variant_first(self.norm(op[1])):
+            return True
         if cc == 104 and md:
             args = [self.norm(x) for x in op[1:]] if k not in ('list', 'lsub') else []
+            if k == 'create':
+                args = [self.cname(op[1])]
             if any(not md_valid_name(self.layout, a) for a in args):
                 return True
             if k == 'rename' and args[1].startswith(args[0] + '/'):
@@ -148,7 +169,7 @@ class RefNs:
             n = self.norm(op[1])
             return any(m.startswith(n + '/') for m in self.boxes)
         if cc == 102 and md and k == 'create':
-            parts = self.norm(op[1]).split('/')
+            parts = self.cname(op[1]).split('/')
             upto = len(parts) if self.layout == 'fs' else len(parts) - 1
             return any('/'.join(parts[:i]) not in self.boxes for i in range(1, upto))
         if cc == 105 and k == 'append':
@@ -159,7 +180,7 @@ class RefNs:
         """('ok', apply) or ('no', None): what RFC 3501 says"""
         k = op[0]
         if k == 'create':
-            n = self.norm(op[1])
+            n = self.cname(op[1])
             if n in self.names():
                 return 'no', None
 
@@ -296,6 +317,24 @@ def gen_program(rng, backend: str, initial) -> list:
 
     for _ in range(n_ops):
         r = rng.random()
+        if rng.random() < 0.10:
+            # delete-and-recreate / rename-and-recreate under the same name, looked at
+            # before and after (a per-session cache must not serve the old mailbox)
+            n = rng.choice(existing()) if existing() and rng.random() < 0.6 else gen_name(rng, None, 1.0)
+            seq = [('create', n), ('append', n), ('status', n)]
+            if rng.random() < 0.5:
+                seq.append(('delete', n))
+            else:
+                q = gen_name(rng, None, 1.0)
+                seq.append(('rename', n, q))
+                pool.append(q)
+            seq += [('create', n), ('status', n)]
+            for o in seq:
+                prog.append(o)
+                advance(o)
+            prog.append(('list', '', '*'))
+            pool.append(n)
+            continue
         if r < 0.30:
             n = gen_name(rng, pool if rng.random() < 0.3 else None, tame)
             if backend == 'mdfs' and '/' in n and rng.random() < 0.6:
@@ -572,7 +611,7 @@ def monitor_program(ctx, backend, prog_id, init, steps) -> None:
                      'list_empty_pattern', step=i)
         if cc == 0 and k == 'status':
             t = ref.get(ref.norm(op[1]))
-            if backend == 'dict':
+            if True:
                 if st[0] in tok_of_id and tok_of_id[st[0]] != t or \
                         t in id_of_tok and id_of_tok[t] != st[0]:
                     fail('rename_moves_subtree', f'STATUS {op[1]!r}: MAILBOXID does not follow the '
@@ -624,17 +663,35 @@ class Jobs:
     def add(self, name, header, typ, cases, chk, on_bad, **kw):
         self.jobs.append((name, header, typ, cases, chk, on_bad, kw))
 
-    def run(self, ctx, workers=3):
+    def run(self, ctx, workers=4):
         from concurrent.futures import ThreadPoolExecutor
+
+        import os
+        # case files are named after the job: a suffix keeps two checks that run
+        # at the same time (same property, same .work/cases directory) apart
+        sfx = f'_p{os.getpid()}'
 
         def one(j):
             name, header, typ, cases, chk, on_bad, kw = j
-            return j, ctx.run_cases(name, header, typ, cases, chk, **kw)
+            return j, ctx.run_cases(name + sfx, header, typ, cases, chk, **kw)
         with ThreadPoolExecutor(max_workers=workers) as ex:
             for j, bad in ex.map(one, self.jobs):
                 for i in bad[:5]:
                     j[5](i)
+        for e in ctx.corr:
+            if e['name'].endswith(sfx):
+                e['name'] = e['name'][:-len(sfx)]
+        ctx.broken[:] = [b.replace(sfx, '') for b in ctx.broken]
         self.jobs = []
+        # leave no per-process case files behind
+        d = os.path.join(os.path.dirname(os.path.dirname(os.path.dirname(os.path.abspath(__file__)))),
+                         '.work', 'cases', ctx.prop)
+        try:
+            for f in os.listdir(d):
+                if sfx + '_' in f:
+                    os.unlink(os.path.join(d, f))
+        except OSError:
+            pass
 
 
 JOBS = Jobs()
@@ -704,7 +761,7 @@ def sec_glob(ctx) -> None:
     alphabet = ['a', 'b', '/', '*', '%', '\n', '.', '\\', '[', ']', '^', '$', '(', '|', '?', '+',
                 'é', 'ı', 'I', 'i', 'N', 'n', 'B', 'O', 'X', 'x', ' ', '\r', '\x00', '-',
                 '\U0001f600', '{', 'K', 'K']
-    n = ctx.scale(1200, 8000)
+    n = ctx.scale(800, 8000)
     cases, keep = [], []
     ci_cases, ci_keep = [], []
     for _ in range(n):
@@ -769,7 +826,7 @@ def sec_tree(ctx) -> None:
     """ListTree.update/list/get/get_renames against the path-list model"""
     from pymap.listtree import ListTree
     rng = ctx.rng
-    n = ctx.scale(400, 3000)
+    n = ctx.scale(300, 3000)
     lc, gc, rc, keep = [], [], [], []
     small = ['', '/', '//', 'a', 'a/', '/a', 'a/b', 'a//b', 'a/b/c', 'b', 'INBOX', 'INBOX/a', 'b/a']
     for _ in range(n):
@@ -896,9 +953,9 @@ def run(ctx) -> None:
     sec_tables(ctx)
     sec_glob(ctx)
     sec_tree(ctx)
-    sec_programs(ctx, 'dict', ctx.scale(180, 1500))
-    sec_programs(ctx, 'md++', ctx.scale(120, 900))
-    sec_programs(ctx, 'mdfs', ctx.scale(120, 900))
+    sec_programs(ctx, 'dict', ctx.scale(120, 1200))
+    sec_programs(ctx, 'md++', ctx.scale(80, 700))
+    sec_programs(ctx, 'mdfs', ctx.scale(80, 700))
     JOBS.run(ctx)
 
 
